@@ -327,25 +327,13 @@ Definition all_true (l : list bool) : bool := forallb (fun b => b) l.
 Definition dft_init_status (shape axes : list nat) (hc : bool) (default_range : bool) : status :=
   let rshape := if hc then hc_shape shape axes else shape in
   if default_range && existsb (fun n => (n =? 1)%nat) rshape then SValueErr else SOk.
-(* VARIANT SWITCHES.  The status functions below describe recorded defects of the current code
-   (findings/C18.json).  Each takes a boolean v_... = "the defect is present", measured by the
-   harness on the finding's own repro input on every run, so that neither the defect nor its
-   later repair breaks the correspondence.  The property theorems are proved for the repaired
-   behaviour; Props.v states what the defective variants do.
-
-   DiscreteFourierTransformInverse._call as the CURRENT code behaves:
-   - onto a real space without halfcomplex the pyfftw back-end rejects the real output array
-     (ValueError from _pyfftw_check_args for sign '-', from pyfftw.FFTW for sign '+' unless the
-     last axis has <= 2 points, where FFTW silently runs a c2r transform = real part of the
-     complex inverse); the numpy back-end stores the real part;
-   - halfcomplex with the numpy back-end calls irfftn without `s`, so an odd last axis
-     comes back one short and the assignment raises ValueError *)
-Definition dft_inverse_status (v_real_pyfftw_raises v_hc_odd_numpy_raises : bool)
-           (pyfftw real_dom hc : bool) (sg_minus : bool) (shape axes : list nat) : status :=
-  let nl := nth (last_axis axes) shape 0%nat in
-  if v_real_pyfftw_raises && real_dom && negb hc && pyfftw && (sg_minus || (3 <=? nl)%nat) then SValueErr
-  else if v_hc_odd_numpy_raises && real_dom && hc && negb pyfftw && Nat.odd nl then SValueErr
-  else SOk.
+(* VARIANT SWITCH.  One recorded defect of the current code is still open
+   (findings/C18.json, ft-halfcomplex-unshifted-axis); ft_init_status takes a boolean
+   v_hc_needs_all_shifts = "the constructor already rejects it", measured by the harness on the
+   finding's repro input on every run, so that neither the defect nor its later repair breaks the
+   correspondence.  The defects of the inverse DFT / real inverse FT recorded earlier were repaired
+   in /repo (021ba38, cc7c4de, 22e4f07, a36e1cd, 1202362, b0c1ccf): every call of
+   DiscreteFourierTransformInverse now succeeds, so it has no status function any more. *)
 (* FourierTransformBase.__init__ *)
 Definition ft_init_status (v_hc_needs_all_shifts : bool) (g : list axis) (axes : list nat)
            (shifts : list bool) (hc : bool) (sg_fwd_plus : bool) : status :=
@@ -359,9 +347,8 @@ Definition ft_init_status (v_hc_needs_all_shifts : bool) (g : list axis) (axes :
 Definition ft_forward_status (pyfftw real_dom hc : bool) (shifts : list bool) : status :=
   if pyfftw && real_dom && hc && negb (all_true shifts) then SOtherErr   (* assert is_real_dtype(preproc) *)
   else SOk.
-Definition ft_inverse_status (v_real_unshifted_pyfftw_raises : bool) (pyfftw real_dom hc : bool)
-           (shifts : list bool) : status :=
-  if real_dom && negb (all_true shifts) && (hc || (pyfftw && v_real_unshifted_pyfftw_raises))
-  then STypeErr  (* complex factor into a real array *)
+Definition ft_inverse_status (real_dom hc : bool) (shifts : list bool) : status :=
+  if real_dom && negb (all_true shifts) && hc
+  then STypeErr  (* half-complex with an unshifted axis: complex factor into the real c2r output *)
   else SOk.
 End Model.
